@@ -401,6 +401,9 @@ func (w *World) Expect(c Case, s Settings, replayed bool) Verdict {
 	if c.StartAbs != nil {
 		start = *c.StartAbs
 	}
+	// the ticket carries its times at the wire's resolution (KerberosTime: whole seconds; the authenticator's
+	// ctime + cusec: microseconds); with a skew that is not a whole number of seconds the difference shows
+	start = start.Truncate(time.Second)
 	if start.After(now.Add(skew)) {
 		return rej("not-yet-valid")
 	}
@@ -411,6 +414,7 @@ func (w *World) Expect(c Case, s Settings, replayed bool) Verdict {
 	if c.EndAbs != nil {
 		end = *c.EndAbs
 	}
+	end = end.Truncate(time.Second)
 	if now.After(end.Add(skew)) {
 		return rej("expired")
 	}
@@ -436,6 +440,7 @@ func (w *World) Expect(c Case, s Settings, replayed bool) Verdict {
 	if c.CTimeAbs != nil {
 		ct = *c.CTimeAbs
 	}
+	ct = ct.Truncate(time.Microsecond)
 	if now.After(ct.Add(skew)) || ct.After(now.Add(skew)) {
 		return rej("clock-skew")
 	}
